@@ -43,6 +43,7 @@ type HandlerCtx struct {
 	setStates   int
 	compacted   bool
 	discarded   bool
+	restoring   bool
 }
 
 // Recorder is the global event log and the home of all online oracles.
@@ -90,10 +91,15 @@ type Recorder struct {
 
 	leaderFirstSeen []leaderSighting
 
+	ConfCalls   []*ConfCall
+	curConfCall map[*simrt.Task]*ConfCall
+	ApiCalls    []*ApiCall
+
 	pending     map[*Node]*pendingLogOp
 	imageChecks int
 	confSeen    map[confKey]raft.Configuration
 	deadIncs    []*Incarnation
+	anyTaint    map[string]bool
 }
 
 type confKey struct{ Index, Term uint64 }
@@ -118,6 +124,7 @@ func newRecorder(c *Cluster) *Recorder {
 		Probes:             map[string]int64{},
 		States:             map[uint64]struct{}{},
 		pending:            map[*Node]*pendingLogOp{},
+		curConfCall:        map[*simrt.Task]*ConfCall{},
 		confSeen:           map[confKey]raft.Configuration{},
 	}
 }
@@ -142,6 +149,41 @@ func (r *Recorder) ev(format string, args ...interface{}) {
 
 func (r *Recorder) probe(name string) { r.Probes[name]++ }
 
+func (r *Recorder) setTaint(n *Node, t string) {
+	if n.taint == nil {
+		n.taint = map[string]bool{}
+	}
+	if !n.taint[t] {
+		n.taint[t] = true
+		r.ev("taint %s %s", n.ID, t)
+	}
+	if r.anyTaint == nil {
+		r.anyTaint = map[string]bool{}
+	}
+	r.anyTaint[t] = true
+}
+
+// taintedAny is tainted for things that come from another node (installed snapshots):
+// any node having shown the signature counts.
+func (r *Recorder) taintedAny(cause string, relevant ...string) string {
+	for _, t := range relevant {
+		if r.anyTaint[t] {
+			cause += "+" + t
+		}
+	}
+	return cause
+}
+
+// tainted appends the node's taints (of the given, relevant ones) to a cause.
+func (r *Recorder) tainted(n *Node, cause string, relevant ...string) string {
+	for _, t := range relevant {
+		if n.taint[t] {
+			cause += "+" + t
+		}
+	}
+	return cause
+}
+
 func (r *Recorder) violate(prop, kind, cause, format string, args ...interface{}) {
 	v := Violation{Property: prop, Kind: kind, Cause: cause, Detail: fmt.Sprintf(format, args...), Seq: r.seq, TimeMs: r.c.nowMs()}
 	cl := v.Class()
@@ -150,7 +192,12 @@ func (r *Recorder) violate(prop, kind, cause, format string, args ...interface{}
 		return
 	}
 	r.Violations = append(r.Violations, v)
-	r.ev("VIOLATION %s", v.String())
+	// Only the class is part of the hashed event log: details may contain stack
+	// traces whose addresses differ from process to process.
+	r.ev("VIOLATION %s %s [%s]", v.Property, v.Kind, v.Cause)
+	if r.c.Cfg.Trace {
+		r.trace = append(r.trace, "          detail: "+v.Detail)
+	}
 }
 
 // ------------------------------------------------------------------ lifecycle
@@ -169,6 +216,9 @@ func (r *Recorder) incarnationEnd(inc *Incarnation, kind string) {
 func (r *Recorder) startFailed(inc *Incarnation, err error) {
 	r.ev("startfail %s %v", inc.Name(), err)
 	cause := classifyStartError(err)
+	if cause == "snapshot-load" {
+		cause = r.tainted(inc.Node, cause, "F3")
+	}
 	// Constructing and starting a node over a crashed directory must succeed at the first attempt.
 	r.violate("C14", "restart-failed", cause, "%s: NewRaft/Start over the crashed directory failed: %v", inc.Name(), err)
 }
@@ -246,12 +296,31 @@ func panicSite(stack string) string {
 	return "unknown"
 }
 
+// trimStack keeps function names and file:line positions only (no goroutine
+// ids, argument words or addresses: those differ from process to process).
 func trimStack(s string) string {
 	lines := strings.Split(s, "\n")
-	if len(lines) > 24 {
-		lines = lines[:24]
+	var out []string
+	for _, l := range lines {
+		t := strings.TrimSpace(l)
+		if t == "" || strings.HasPrefix(t, "goroutine ") {
+			continue
+		}
+		if strings.Contains(t, "/xsim/") || strings.Contains(t, "runtime/debug") || strings.Contains(t, "runtime/panic") || strings.HasPrefix(t, "panic(") {
+			continue
+		}
+		if i := strings.LastIndex(t, "("); i > 0 && !strings.Contains(t, ".go:") {
+			t = t[:i]
+		}
+		if i := strings.Index(t, " +0x"); i > 0 {
+			t = t[:i]
+		}
+		out = append(out, t)
+		if len(out) >= 16 {
+			break
+		}
 	}
-	return strings.Join(lines, "\n")
+	return strings.Join(out, " <- ")
 }
 
 func (r *Recorder) storageCall(inc *Incarnation, what string, err error) {
@@ -300,8 +369,16 @@ func (r *Recorder) safetyProp(p string) string {
 
 // ------------------------------------------------------------------ state machine events
 
+func restartingNow(inc *Incarnation) bool {
+	return inc.haveStatus && inc.lastStatus.State == raft.Shutdown
+}
+
 func (r *Recorder) onApply(inc *Incarnation, sm *ModelSM, a AppliedOp) {
 	r.Applies++
+	if inc.restoring > 0 {
+		// Signature of F2: the apply loop runs inside the unlocked restore window of InstallSnapshot.
+		r.setTaint(inc.Node, "F2")
+	}
 	r.ev("apply %s idx=%d term=%d op=%d", inc.Name(), a.Index, a.Term, a.OpID)
 	// C01: same (term, bytes) at an index everywhere, forever.
 	e := MEntry{Index: a.Index, Term: a.Term, Type: raft.OperationEntry, Hash: a.Hash, Len: -1}
@@ -330,7 +407,7 @@ func (r *Recorder) onApply(inc *Incarnation, sm *ModelSM, a AppliedOp) {
 		if sm.Restores > 0 || r.c.Cfg.SnapThreshold > 0 {
 			prop = "C10"
 		}
-		r.violate(prop, kind, "non-increasing", "%s: Apply(index %d) after index %d on the same state machine instance",
+		r.violate(prop, kind, r.tainted(inc.Node, "non-increasing", "F1", "F2"), "%s: Apply(index %d) after index %d on the same state machine instance",
 			inc.Name(), a.Index, sm.lastIndexSinceRestore)
 	}
 	if sm.busy > 1 {
@@ -347,7 +424,7 @@ func (r *Recorder) onSMSnapshot(inc *Incarnation, sm *ModelSM, data []byte) {
 
 func (r *Recorder) onBadSnapshot(inc *Incarnation, err error, n int) {
 	r.ev("badsnapshot %s %v", inc.Name(), err)
-	r.violate("C10", "restore-garbage", "undecodable", "%s: Restore was handed %d bytes that are not a snapshot any state machine produced: %v", inc.Name(), n, err)
+	r.violate("C10", "restore-garbage", r.tainted(inc.Node, "undecodable", "F3"), "%s: Restore was handed %d bytes that are not a snapshot any state machine produced: %v", inc.Name(), n, err)
 }
 
 func (r *Recorder) onRestore(inc *Incarnation, sm *ModelSM, ops []AppliedOp, data []byte) {
@@ -359,9 +436,24 @@ func (r *Recorder) onRestore(inc *Incarnation, sm *ModelSM, ops []AppliedOp, dat
 	if sm.busy > 1 {
 		r.probe("restore-during-apply")
 	}
-	// C11(c): never install a snapshot older than what the instance has applied.
-	if len(sm.Ops) > len(ops) {
-		r.violate("C11", "restore-older", "fewer-ops", "%s: Restore with %d operations (last index %d) onto an instance that already applied %d (last index %d)",
+	if sm.applying > 0 {
+		// Signature of F2: Restore while a replicated Apply is in flight on the same
+		// instance: the stale operation lands on top of the restored state.
+		r.setTaint(inc.Node, "F2")
+	}
+	if ctx := r.ctxByTask[r.c.Sim.Cur()]; ctx != nil && ctx.Msg.Kind == KindIS && inc.haveStatus && !restartingNow(inc) {
+		if inc.lastStatus.LastApplied > ctx.Msg.IS.LastIncludedIndex {
+			defer r.setTaint(inc.Node, "F2")
+			r.violate("C11", "restore-older", r.tainted(inc.Node, "behind-applied-index", "F3"), "%s: Restore of a snapshot labelled %d while the node has already applied index %d",
+				inc.Name(), ctx.Msg.IS.LastIncludedIndex, inc.lastStatus.LastApplied)
+		}
+	}
+	// C11(c): never install a snapshot older than what the instance has applied
+	// (a restore that is part of (re)starting the node from its persisted state is exempt).
+	restarting := inc.haveStatus && inc.lastStatus.State == raft.Shutdown
+	if len(sm.Ops) > len(ops) && !restarting {
+		defer r.setTaint(inc.Node, "F2")
+		r.violate("C11", "restore-older", r.tainted(inc.Node, "fewer-ops", "F3"), "%s: Restore with %d operations (last index %d) onto an instance that already applied %d (last index %d)",
 			inc.Name(), len(ops), last, len(sm.Ops), sm.lastIndexSinceRestore)
 	}
 	r.checkOpsArePrefix(inc, ops, "restored snapshot")
@@ -373,7 +465,11 @@ func (r *Recorder) checkOpsArePrefix(inc *Incarnation, ops []AppliedOp, what str
 	prev := uint64(0)
 	for _, o := range ops {
 		if o.Index <= prev {
-			r.violate("C10", "content-order", "duplicate-or-reorder", "%s: %s lists index %d after %d", inc.Name(), what, o.Index, prev)
+			cause := r.tainted(inc.Node, "duplicate-or-reorder", "F1", "F2")
+			if strings.HasPrefix(what, "installed") {
+				cause = r.taintedAny("duplicate-or-reorder", "F1", "F2")
+			}
+			r.violate("C10", "content-order", cause, "%s: %s lists index %d after %d", inc.Name(), what, o.Index, prev)
 			return
 		}
 		prev = o.Index
@@ -397,6 +493,12 @@ func (r *Recorder) onStatus(inc *Incarnation, st raft.Status) {
 	if had && prev == st {
 		return
 	}
+	if had && prev.State == raft.Shutdown && st.State != raft.Shutdown {
+		// Stop followed by Start/Restart on the same object: volatile indices start over
+		// from the persisted state, exactly as in a new process.
+		had = false
+		r.probe("graceful-restart")
+	}
 	inc.lastStatus = st
 	inc.haveStatus = true
 	r.ev("status %s term=%d state=%d commit=%d applied=%d", inc.Name(), st.Term, st.State, st.CommitIndex, st.LastApplied)
@@ -408,13 +510,18 @@ func (r *Recorder) onStatus(inc *Incarnation, st raft.Status) {
 		n.lastTermSeen = st.Term
 		n.lastTermSrc = "status of " + inc.Name()
 	}
+	if had && inc.restoring > 0 && (st.LastApplied > prev.LastApplied || st.CommitIndex > prev.CommitIndex) {
+		// Signature of F2: the node makes progress inside the unlocked restore window of
+		// InstallSnapshot; the handler then overwrites commit/applied with the snapshot label.
+		r.setTaint(n, "F2")
+	}
 	if had {
 		// C11(b)/C06(c): within an incarnation commit and applied indices never decrease.
 		if st.CommitIndex < prev.CommitIndex {
-			r.violate("C11", "commit-regressed", "status", "%s commit index %d -> %d", inc.Name(), prev.CommitIndex, st.CommitIndex)
+			r.violate("C11", "commit-regressed", r.tainted(n, "status", "F2", "F3"), "%s commit index %d -> %d", inc.Name(), prev.CommitIndex, st.CommitIndex)
 		}
 		if st.LastApplied < prev.LastApplied {
-			r.violate("C11", "applied-regressed", "status", "%s last applied %d -> %d", inc.Name(), prev.LastApplied, st.LastApplied)
+			r.violate("C11", "applied-regressed", r.tainted(n, "status", "F2", "F3"), "%s last applied %d -> %d", inc.Name(), prev.LastApplied, st.LastApplied)
 		}
 	}
 	// Feed the committed registry from the commit index and the node's log mirror.
@@ -443,6 +550,37 @@ func (r *Recorder) onStatus(inc *Incarnation, st raft.Status) {
 		ctx.commitAfter = st.CommitIndex
 		ctx.termAfter = st.Term
 		ctx.sawStatus = true
+	}
+	if r.c.Cfg.Membership || r.c.Cfg.ApiFuzz {
+		if conf, ok := r.c.configuration(inc); ok {
+			r.onConfiguration(inc, conf)
+		}
+		if r.c.Cfg.Membership && st.State == raft.Leader && had && st.CommitIndex > prev.CommitIndex {
+			r.checkCommitQuorum(inc, st)
+		}
+		// Membership futures: note when the submitter applied its own entry while still leading that term.
+		if len(inc.pendingConf) > 0 {
+			keep := inc.pendingConf[:0]
+			for _, call := range inc.pendingConf {
+				appliedNow := st.LastApplied >= call.AppendedIndex
+				wasLeader := had && prev.State == raft.Leader && prev.Term == call.TermAt
+				if st.Term != call.TermAt {
+					continue // leadership lost first: no obligation
+				}
+				if st.State != raft.Leader && !(appliedNow && wasLeader && prev.LastApplied < call.AppendedIndex) {
+					continue
+				}
+				if appliedNow {
+					if reg, ok := r.Reg[call.AppendedIndex]; ok && reg.Term == call.AppendedTerm {
+						call.AppliedAtNs = r.c.Sim.Now()
+						r.probe("membership-change-applied-by-its-leader")
+					}
+					continue
+				}
+				keep = append(keep, call)
+			}
+			inc.pendingConf = keep
+		}
 	}
 	// C02(a): at most one node in Leader state per term.
 	if st.State == raft.Leader {
@@ -601,6 +739,9 @@ func (r *Recorder) handlerBegin(inc *Incarnation, m *Msg) *HandlerCtx {
 func (r *Recorder) handlerEnd(inc *Incarnation, m *Msg, ctx *HandlerCtx, err error) {
 	delete(inc.inflight, m.ID)
 	delete(r.ctxByTask, ctx.Task)
+	if ctx.restoring {
+		inc.restoring--
+	}
 	if err != nil {
 		r.ev("handled %s#%d at %s err=%v", kindName[m.Kind], m.ID, inc.Name(), err)
 		return
@@ -609,6 +750,11 @@ func (r *Recorder) handlerEnd(inc *Incarnation, m *Msg, ctx *HandlerCtx, err err
 	switch m.Kind {
 	case KindAE:
 		r.ev("handled AE#%d at %s ok=%v term=%d idx=%d", m.ID, inc.Name(), m.AEr.Success, m.AEr.Term, m.AEr.Index)
+		if inc.restoring > 0 && m.AEr.Success {
+			// Signature of F2: AppendEntries accepted against the boundary that InstallSnapshot
+			// already published, while the old log is still in place and the restore is running.
+			r.setTaint(n, "F2")
+		}
 		r.replyTerm(inc, m.AEr.Term, "AppendEntries reply")
 		r.checkAE(inc, m, ctx)
 	case KindRV:
@@ -654,6 +800,7 @@ func (r *Recorder) replyDelivered(m *Msg) {
 func (r *Recorder) checkRV(inc *Incarnation, m *Msg, ctx *HandlerCtx) {
 	n := inc.Node
 	req := m.RV
+	r.c.window.voteRequestHandled(inc, m)
 	if req.Prevote {
 		// (d) a prevote never changes the voter's term or vote.
 		if ctx.setStates > 0 {
@@ -774,6 +921,7 @@ func (r *Recorder) logAppended(inc *Incarnation, es []*raft.LogEntry) {
 			if conf, err := inc.Tr.DecodeConfiguration(e.Data); err == nil {
 				r.confSeen[confKey{e.Index, e.Term}] = conf
 			}
+			r.confAppended(inc, e)
 		}
 		if me.Index != m.last().Index+1 {
 			r.violate(r.safetyProp("C06"), "append-gap", "index", "%s appended index %d after last index %d", inc.Name(), me.Index, m.last().Index)
@@ -861,7 +1009,7 @@ func (r *Recorder) logDiscarded(inc *Incarnation, index, term uint64) {
 			continue
 		}
 		if reg, ok := r.Reg[i]; ok && reg.Term == e.Term {
-			r.violate("C11", "discarded-committed", "discard", "%s discarded its log up to %d but held committed index %d (term %d, committed by %s)", inc.Name(), index, i, e.Term, reg.Src)
+			r.violate("C11", "discarded-committed", r.tainted(inc.Node, "discard", "F2", "F3"), "%s discarded its log up to %d but held committed index %d (term %d, committed by %s)", inc.Name(), index, i, e.Term, reg.Src)
 			break
 		}
 	}
@@ -895,7 +1043,11 @@ func (r *Recorder) checkLogMatching(inc *Incarnation, hi uint64) {
 			xa, _ := a.get(i)
 			xb, _ := b.get(i)
 			if !xa.same(xb) {
-				r.violate(r.safetyProp("C06"), "log-matching", "prefix-differs",
+				cause := "prefix-differs"
+				if inc.Node.taint["F2"] || o.taint["F2"] {
+					cause += "+F2"
+				}
+				r.violate(r.safetyProp("C06"), "log-matching", cause,
 					"%s and %s both hold index %d term %d, but differ at index %d: %d/%x vs %d/%x",
 					inc.Node.ID, o.ID, hi, ea.Term, i, xa.Term, xa.Hash, xb.Term, xb.Hash)
 				break
